@@ -1204,13 +1204,11 @@ Qed.
 (* ====================================================================================== *)
 (* ipv4-prefix host bits                                                                   *)
 (* ====================================================================================== *)
-Definition ip4_mask_check (l : N) : bool := ip4_mask l =? N.shiftl (N.ones l) (32 - l).
-Lemma ip4_mask_all : N_all_below 33 ip4_mask_check = true.
-Proof. vm_compute. reflexivity. Qed.
-
 Lemma ip4_mask_shift l : l <= 32 -> ip4_mask l = N.shiftl (N.ones l) (32 - l).
 Proof.
-  intro H. apply N.eqb_eq. apply (N_all_below_spec 33 ip4_mask_check ip4_mask_all l). lia.
+  intro H. rewrite <- (N2Nat.id l). assert (Hn : (N.to_nat l <= 32)%nat) by lia. clear H.
+  generalize dependent (N.to_nat l). clear l. intros n Hn.
+  do 33 (destruct n as [|n]; [vm_compute; reflexivity|]). lia.
 Qed.
 
 (* the mask has exactly the [l] most significant of the 32 bits set *)
